@@ -153,13 +153,27 @@ func (s *sharedEntryAttributes) toXmlInternal(parent *etree.Element, onlyNewOrUp
 			// Apply sorting of childs. Childs of inactive choice cases are not
 			// part of the config, unless they are to be deleted from the device.
 			activeChilds := s.filterActiveChoiceCaseChilds()
+			// the elements of a choice case that is no longer the active one are to be deleted from
+			// the device, also if some lower precedence intent still holds them (same as for the other encodings)
+			oldCaseElems := []string{}
+			for _, v := range s.choicesResolvers {
+				oldBestCaseName := v.getOldBestCaseName()
+				newBestCaseName := v.getBestCaseName()
+				if oldBestCaseName != "" && newBestCaseName != "" && oldBestCaseName != newBestCaseName {
+					oldCaseElems = append(oldCaseElems, v.getCaseElementNames(oldBestCaseName)...)
+				}
+			}
 			keys := make([]string, 0, s.childs.Length())
 			for k, child := range s.childs.GetAll() {
+				if slices.Contains(oldCaseElems, k) {
+					continue
+				}
 				if _, active := activeChilds[k]; !active && !child.shouldDelete() {
 					continue
 				}
 				keys = append(keys, k)
 			}
+			slices.Sort(oldCaseElems)
 			if s.parent == nil {
 				slices.Sort(keys)
 			} else {
@@ -195,6 +209,21 @@ func (s *sharedEntryAttributes) toXmlInternal(parent *etree.Element, onlyNewOrUp
 				// if all the childs are meant to no be added, the whole container element should not be added
 				// so we keep track via overAllDoAdd
 				overallDoAdd = doAdd || overallDoAdd
+			}
+			// delete the elements of the choice case that is no longer active
+			for _, elemName := range oldCaseElems {
+				if s.parent == nil {
+					newElem = parent
+				}
+				if s.parent != nil {
+					xmlAddNamespaceConditional(s, s.parent, newElem, honorNamespace)
+				}
+				delElem := newElem.CreateElement(elemName)
+				if child, exists := s.childs.GetEntry(elemName); exists && s.parent != nil {
+					xmlAddNamespaceConditional(child, s, delElem, honorNamespace)
+				}
+				utils.AddXMLOperation(delElem, utils.XMLOperationDelete, operationWithNamespace, useOperationRemove)
+				overallDoAdd = true
 			}
 			// so if there is at least a child and the s.parent is not nil (root node)
 			// then add p to the parent as a child
